@@ -20,6 +20,7 @@ import (
 	"runtime"
 	"strings"
 	"sync"
+	"sync/atomic"
 	"time"
 
 	"github.com/pinealctx/neptune/syncx/pipe/mux"
@@ -59,8 +60,12 @@ type Config struct {
 	Deep int `json:"deep,omitempty"`
 	// Custom: the group is built with mux.NewWorkGrp and a caller-supplied CacheFacade (a
 	// pass-through wrapper around the stock facade) instead of the stock constructors.
-	Custom bool    `json:"custom,omitempty"`
-	InitSz []int64 `json:"init_sz,omitempty"` // Sized: Size() of the initial value of key i (default 1)
+	Custom bool `json:"custom,omitempty"`
+	// FacadeYields (Custom only): the pass-through facade calls runtime.Gosched this many times
+	// before it hands a Set or Delete to the real facade (widens the windows inside the library
+	// that contain no store callback; used by the free-running parts).
+	FacadeYields int     `json:"facade_yields,omitempty"`
+	InitSz       []int64 `json:"init_sz,omitempty"` // Sized: Size() of the initial value of key i (default 1)
 }
 
 // operation kinds
@@ -89,6 +94,9 @@ type Op struct {
 	// takes effect (or fails, by the fault plan) and then cancels the context itself.
 	Cancel   int `json:"cancel,omitempty"`
 	CancelAt int `json:"cancel_at,omitempty"`
+	// Deadline (with Cancel 1): the context is not cancelled but carries a deadline that has
+	// already passed when the call is made (context.WithDeadline in the past: no timer).
+	Deadline bool `json:"deadline,omitempty"`
 }
 
 // cancel modes
@@ -113,7 +121,10 @@ var cbNames = [...]string{"load", "add", "update", "upsert", "delete"}
 
 // Fault makes the Nth invocation (0-based, counted per callback over the whole
 // case) of callback Cb fail without effect. Kind 0: a plain error; 1: the
-// not-found error (the one the IsNotFoundFn given to DoUpdOrAddIfNull accepts).
+// not-found error (the one the IsNotFoundFn given to DoUpdOrAddIfNull accepts);
+// 2: a plain error, and the callback hands back a non-nil value beside it (a
+// value with a fresh version that the store never took - a caller must not use
+// it; delete returns no value, there kind 2 is kind 0).
 type Fault struct {
 	Cb   int `json:"cb"`
 	Nth  int `json:"nth"`
@@ -140,6 +151,14 @@ type CaseGate struct {
 	GateAt int     `json:"gate_at"`
 	Queued []Op    `json:"queued"`
 	Faults []Fault `json:"faults"`
+	// FacadeGate (Custom configurations): the gate is not in a store callback of Gate but in
+	// the caller-supplied cache facade: the first Set or Delete the group makes after Gate was
+	// called waits there, i.e. in a window of the library that contains no store callback.
+	FacadeGate bool `json:"facade_gate,omitempty"`
+	// Stop: once the followers are accepted (gate still closed) the group is stopped; After
+	// are calls made after Stop returned and before the gate opens.
+	Stop  bool `json:"stop,omitempty"`
+	After []Op `json:"after,omitempty"`
 }
 
 // CaseConc is a concurrent program: caller i issues Callers[i] one after the
@@ -235,10 +254,21 @@ func genConfig(t *rapid.T) Config {
 	} else {
 		c.Sized = rapid.IntRange(0, 3).Draw(t, "sized") == 0
 	}
+	// (0: no WithSize option, the group takes its default number of workers)
+	// - rarely, it costs 127 goroutines per case: about 1 case in 250 in the quick tier, 1 in 60 in the thorough one
 	c.Workers = rapid.SampledFrom([]int{1, 2, 3, 7}).Draw(t, "workers")
+	if x := rapid.IntRange(0, 255).Draw(t, "defaultworkers"); x == 137 || (vkit.Tier() == "thorough" && x%64 == 9) {
+		c.Workers = 0
+	}
 	c.Deep = rapid.SampledFrom([]int{0, 0, 0, 1, 2, 3}).Draw(t, "deep")
 	c.Custom = rapid.IntRange(0, 3).Draw(t, "custom") == 0
 	n := rapid.IntRange(1, 6).Draw(t, "nkeys")
+	if rapid.IntRange(0, 11).Draw(t, "manykeys") == 0 {
+		n = rapid.IntRange(7, 12).Draw(t, "nkeys2")
+	}
+	if c.Custom {
+		c.FacadeYields = rapid.IntRange(0, 3).Draw(t, "facadeyields")
+	}
 	seen := map[string]bool{}
 	for len(c.Keys) < n {
 		k := genKey(t)
@@ -300,6 +330,7 @@ func genCancel(t *rapid.T, op *Op, queuedMode bool) {
 	switch rapid.IntRange(0, 19).Draw(t, "cancel") {
 	case 0:
 		op.Cancel = cBefore
+		op.Deadline = rapid.Bool().Draw(t, "deadline")
 	case 1, 2:
 		op.Cancel, op.CancelAt = cInside, rapid.IntRange(1, 2).Draw(t, "cancelat")
 	case 3:
@@ -321,7 +352,7 @@ func genFaults(t *rapid.T) []Fault {
 		fs = append(fs, Fault{
 			Cb:   rapid.IntRange(0, nCallbacks-1).Draw(t, "fcb"),
 			Nth:  nthGen.Draw(t, "fnth"),
-			Kind: rapid.IntRange(0, 1).Draw(t, "fkind"),
+			Kind: rapid.IntRange(0, 2).Draw(t, "fkind"),
 		})
 	}
 	return fs
@@ -352,6 +383,9 @@ func GenGate(t *rapid.T) CaseGate {
 	if rapid.IntRange(0, 9).Draw(t, "oneworker") < 4 {
 		c.Workers = 1
 	}
+	if rapid.IntRange(0, 9).Draw(t, "owncache") < 3 {
+		c.Custom = true
+	}
 	c.Gate = genOp(t, c.Config)
 	gk := c.Gate.Key
 	// most operations go to the gated key: that is where acceptance order matters
@@ -376,6 +410,17 @@ func GenGate(t *rapid.T) CaseGate {
 		c.Queued = append(c.Queued, op)
 	}
 	c.Faults = genFaults(t)
+	if c.Custom {
+		c.FacadeGate = rapid.Bool().Draw(t, "facadegate")
+	}
+	if rapid.IntRange(0, 3).Draw(t, "stop") == 0 {
+		c.Stop = true
+		for i, n := 0, rapid.IntRange(0, 2).Draw(t, "nafter"); i < n; i++ {
+			op := genOp(t, c.Config)
+			nearKey(&op)
+			c.After = append(c.After, op)
+		}
+	}
 	return c
 }
 
@@ -466,6 +511,7 @@ type cbEnt struct {
 	ok     bool
 	out    Val
 	err    *cbErr
+	ghost  *Val // the value a failing callback handed back beside its error (never in the store)
 }
 
 // opRec is one operation as executed.
@@ -484,6 +530,8 @@ type opRec struct {
 	sweep  bool
 	gateAt int  // > 0: the gateAt-th callback of this operation waits for the harness gate
 	early  bool // gated part: it had returned while the gate was still closed
+	// the call was made after Stop had returned: it must not reach the store
+	afterStop bool
 	// how many operations accepted before this call may still have been unfinished (queued
 	// or running) anywhere in the group when it was made
 	unfinishedBefore int
@@ -521,6 +569,7 @@ type env struct {
 	noFaults    bool // final sweep: the fault plan is switched off
 	faultsHit   int
 	nfHit       int
+	ghosts      int
 	gate        chan struct{}
 	gateReached bool
 	gateCb      int
@@ -649,6 +698,16 @@ func (e *env) invoke(rec *opRec, cb int, argOK bool, hasPre bool, pre interface{
 	switch {
 	case faulted:
 		ent.err = &cbErr{Op: rec.id, Cb: cb, NotFound: kind == 1, Injected: true, What: "injected fault"}
+		if kind == 2 && cb != cbDel {
+			// the failing callback hands a value back beside its error: one the store never took
+			e.ver++
+			ent.ghost = &Val{K: kid, Ver: e.ver, D: -7}
+			if e.sized {
+				ent.ghost.Sz = 1
+			}
+			ent.err.What = "injected fault, a value is returned beside the error"
+			e.ghosts++
+		}
 		if kind == 1 {
 			ent.err.What = "injected not-found"
 			e.nfHit++
@@ -706,6 +765,12 @@ func (e *env) invoke(rec *opRec, cb int, argOK bool, hasPre bool, pre interface{
 		}
 		return ent.out, nil
 	}
+	if ent.ghost != nil {
+		if e.sized {
+			return SVal{*ent.ghost}, ent.err
+		}
+		return *ent.ghost, ent.err
+	}
 	return nil, ent.err
 }
 
@@ -721,10 +786,11 @@ type harness struct {
 	ctx    context.Context
 	cancel context.CancelFunc
 	opened bool
+	fctl   *facadeCtl
 }
 
 func validConfig(c Config) bool {
-	if c.Workers < 1 || c.Workers > 64 || len(c.Keys) < 1 || len(c.Keys) > 16 {
+	if c.Workers < 0 || c.Workers > 64 || len(c.Keys) < 1 || len(c.Keys) > 16 {
 		return false
 	}
 	if c.LRU && (c.Cap < 1 || c.Cap > 1<<20) {
@@ -749,12 +815,34 @@ func validConfig(c Config) bool {
 }
 
 // passFacade is a caller-supplied CacheFacade: a pass-through to a stock facade.
-type passFacade struct{ in mux.CacheFacade }
+type passFacade struct {
+	in  mux.CacheFacade
+	ctl *facadeCtl
+}
+
+// facadeCtl lets the harness widen (yields) or own (gate) the moment between the
+// group's decision to change the cache and the change itself.
+type facadeCtl struct {
+	yields  int
+	armed   atomic.Bool // the next Set or Delete waits at the gate
+	reached atomic.Bool
+	gate    chan struct{}
+}
+
+func (p *passFacade) hold() {
+	for i := 0; i < p.ctl.yields; i++ {
+		runtime.Gosched()
+	}
+	if p.ctl.armed.CompareAndSwap(true, false) {
+		p.ctl.reached.Store(true)
+		<-p.ctl.gate
+	}
+}
 
 func (p *passFacade) Peek(k interface{}) (interface{}, bool) { return p.in.Peek(k) }
 func (p *passFacade) Get(k interface{}) (interface{}, bool)  { return p.in.Get(k) }
-func (p *passFacade) Set(k interface{}, v interface{})       { p.in.Set(k, v) }
-func (p *passFacade) Delete(k interface{})                   { p.in.Delete(k) }
+func (p *passFacade) Set(k interface{}, v interface{})       { p.hold(); p.in.Set(k, v) }
+func (p *passFacade) Delete(k interface{})                   { p.hold(); p.in.Delete(k) }
 
 func validOp(op Op, nkeys int) bool {
 	return op.K >= 0 && op.K < nOpKinds && op.Key >= 0 && op.Key < nkeys
@@ -780,17 +868,21 @@ func newHarness(c Config, faults []Fault) *harness {
 			h.env.install(kid, -1, sz, nil)
 		}
 	}
-	opts := []mux.Option{mux.WithSize(c.Workers)}
+	var opts []mux.Option
+	if c.Workers > 0 {
+		opts = append(opts, mux.WithSize(c.Workers))
+	}
 	if c.Deep > 0 {
 		opts = append(opts, mux.WithDeep(c.Deep))
 	}
 	switch {
 	case c.Custom:
+		h.fctl = &facadeCtl{yields: c.FacadeYields, gate: h.env.gate}
 		h.grp = mux.NewWorkGrp(func() mux.CacheFacade {
 			if c.LRU {
-				return &passFacade{in: mux.NewFacadeLRU(c.Cap)}
+				return &passFacade{in: mux.NewFacadeLRU(c.Cap), ctl: h.fctl}
 			}
-			return &passFacade{in: mux.NewFacadeMap()}
+			return &passFacade{in: mux.NewFacadeMap(), ctl: h.fctl}
 		}, opts...)
 	case c.LRU:
 		h.grp = mux.NewWorkGrpWithLRU(c.Cap, opts...)
@@ -845,6 +937,12 @@ func (h *harness) stop(sched *vkit.Sched, res *vkit.Result) {
 func (h *harness) newRec(id, caller int, op Op) *opRec {
 	r := &opRec{id: id, caller: caller, op: op, kid: h.kids[op.Key]}
 	r.ctx, r.cancel = context.WithCancel(h.ctx)
+	if op.Cancel == cBefore && op.Deadline {
+		// a deadline long past: the context has ended at once, no timer is started (released with h.ctx)
+		inner := r.cancel
+		dctx, stop := context.WithDeadline(r.ctx, time.Unix(1, 0))
+		r.ctx, r.cancel = dctx, func() { stop(); inner() }
+	}
 	return r
 }
 
@@ -968,13 +1066,21 @@ func (r *opRec) resultIs(en *cbEnt) bool {
 		vv, ok := asVal(r.v)
 		return ok && r.err == nil && vv == en.out
 	}
+	// (the value a failing callback may have handed back beside its error is not the caller's
+	// business: nil or that value are both accepted)
 	ce, ok := r.err.(*cbErr)
-	return r.v == nil && ok && ce == en.err
+	if !ok || ce != en.err {
+		return false
+	}
+	if vv, isVal := asVal(r.v); isVal && en.ghost != nil && vv == *en.ghost {
+		return true
+	}
+	return r.v == nil
 }
 
 // ctxResult: the caller received the error of its own (ended) context.
 func (r *opRec) ctxResult() bool {
-	return r.cancelled && r.v == nil && r.err != nil && errors.Is(r.err, context.Canceled)
+	return r.cancelled && r.v == nil && r.err != nil && (errors.Is(r.err, context.Canceled) || errors.Is(r.err, context.DeadlineExceeded))
 }
 
 // checkShape judges one finished operation by the documentation of its Do*
@@ -1005,6 +1111,16 @@ func checkShape(r *opRec) (obs int, site, msg string) {
 		}
 	}
 	r.complete, r.effOK = false, false
+	if r.afterStop {
+		if len(L) != 0 {
+			return bad("stopped-group-touched-store", "the call was made after Stop had returned, yet store callbacks ran for it")
+		}
+		if _, isVal := asVal(r.v); r.op.K == opGet && isVal && r.err == nil {
+			r.complete, r.effOK = true, true
+			return obsCached, "", "" // served from the cache: no store call, judged like any cached read
+		}
+		return obsRefused, "", ""
+	}
 	if r.v == nil && r.err == mux.ErrQFull {
 		if len(L) != 0 {
 			return bad("refused-call-touched-store", "the caller was told that the queue is full, i.e. the operation was not accepted, yet store callbacks ran for it")
@@ -1314,7 +1430,14 @@ func labelConfig(res *vkit.Result, c Config, h *harness) {
 	} else {
 		res.Class("facade-map")
 	}
-	res.Class(fmt.Sprintf("workers-%d", c.Workers))
+	if c.Workers == 0 {
+		res.Class(fmt.Sprintf("workers-default-%d", h.grp.MuxSize()))
+	} else {
+		res.Class(fmt.Sprintf("workers-%d", c.Workers))
+	}
+	if len(c.Keys) > 6 {
+		res.Class("keys-7-to-12")
+	}
 	if c.Deep > 0 {
 		res.Class(fmt.Sprintf("queue-depth-%d", c.Deep))
 	} else {
@@ -1378,6 +1501,15 @@ func labelOp(res *vkit.Result, r *opRec, obs int) {
 		if r.log[i].err != nil && r.log[i].err.Injected {
 			res.Class("fault-in-" + cbNames[r.log[i].cb])
 		}
+		if r.log[i].ghost != nil {
+			res.Class("failing-callback-handed-back-a-value")
+			if obs == obsCached {
+				res.Class("failing-callback-handed-back-a-value-on-a-cached-key")
+			}
+		}
+	}
+	if r.cancelled && r.op.Cancel == cBefore && r.op.Deadline {
+		res.Class("context-with-a-deadline-already-passed")
 	}
 	if r.cancelled {
 		switch {
@@ -1435,6 +1567,10 @@ func (j *judge) one(r *opRec) bool {
 		return false
 	}
 	key := r.op.Key
+	if obs == obsRefused && r.afterStop {
+		res.Class("refused-after-stop")
+		return true
+	}
 	if obs == obsRefused {
 		// never accepted: no effect on order or knowledge. Legitimate only if the queue of the key's
 		// worker can have been full: at least `deep` earlier accepted operations still unfinished
@@ -1679,18 +1815,32 @@ func ExecGate(c CaseGate) *vkit.Result {
 	}
 	var runs []*run
 	g := &run{r: h.newRec(1000, 1, c.Gate)}
-	g.r.gateAt = c.GateAt
+	facadeGate := c.FacadeGate && h.fctl != nil
+	if facadeGate {
+		h.fctl.armed.Store(true)
+	} else {
+		g.r.gateAt = c.GateAt
+	}
 	g.op = sched.Go("gated-op", func() { h.do(g.r) })
 	sched.MustQuiesce()
 	e.mu.Lock()
 	gateHeld := e.gateReached && !g.op.Done()
 	gateCb := e.gateCb
 	e.mu.Unlock()
+	if facadeGate {
+		// held inside the facade's Set/Delete: the worker is occupied whether or not the library
+		// has already answered the caller (it must not have: the operation is not complete)
+		h.fctl.armed.Store(false)
+		gateHeld = h.fctl.reached.Load()
+	}
 	g.parked = !g.op.Done()
 	runs = append(runs, g)
-	if gateHeld {
+	switch {
+	case gateHeld && facadeGate:
+		res.Class("gate-in-the-cache-facade")
+	case gateHeld:
 		res.Class("gate-in-" + cbNames[gateCb])
-	} else {
+	default:
 		res.Class("gate-not-reached")
 	}
 	behindSameKey, adds := 0, 0
@@ -1718,7 +1868,8 @@ func ExecGate(c CaseGate) *vkit.Result {
 		q.op = sched.Go(fmt.Sprintf("queued-op-%d", i), func() { h.do(q.r) })
 		sched.MustQuiesce()
 		q.parked = !q.op.Done()
-		q.r.early = !q.parked && !g.op.Done()
+		// (the gated operation is unfinished while the gate holds its worker, even if its caller's context ended and the caller has gone)
+		q.r.early = !q.parked && (gateHeld || !g.op.Done())
 		if gateHeld {
 			switch {
 			case q.parked && op.Key == c.Gate.Key:
@@ -1747,9 +1898,54 @@ func ExecGate(c CaseGate) *vkit.Result {
 		}
 		runs = append(runs, q)
 	}
+	var after []*run
+	stopped := false
+	if c.Stop {
+		pending := 0
+		for _, x := range runs {
+			if !x.op.Done() {
+				pending++
+			}
+		}
+		sop := sched.Go("stop", h.grp.Stop)
+		sched.MustQuiesce()
+		stopped = sop.Done()
+		switch {
+		case !stopped:
+			res.Skip("stop-did-not-return-while-gated")
+		case pending >= 2:
+			res.Class("stop-with-two-or-more-operations-pending")
+		case pending == 1:
+			res.Class("stop-with-one-operation-pending")
+		default:
+			res.Class("stop-with-nothing-pending")
+		}
+		for i, op := range c.After {
+			if !stopped || !validOp(op, len(h.keys)) {
+				res.Skip("after-stop-op-skipped")
+				continue
+			}
+			op.Cancel, op.CancelAt = cNever, 0
+			a := &run{r: h.newRec(3000+i, 20+i, op)}
+			a.r.afterStop = true
+			a.op = sched.Go(fmt.Sprintf("after-stop-op-%d", i), func() { h.do(a.r) })
+			sched.MustQuiesce()
+			a.r.early = a.op.Done() && (gateHeld || !g.op.Done())
+			after = append(after, a)
+		}
+		// widen the callbacks a little: what is still queued must be applied one at a time
+		e.mu.Lock()
+		e.yields = 2
+		e.mu.Unlock()
+	}
 	h.openGate()
 	sched.MustQuiesce()
 	var stuck []string
+	for _, x := range after {
+		if !x.op.Done() {
+			stuck = append(stuck, x.r.String())
+		}
+	}
 	for _, x := range runs {
 		if !x.op.Done() {
 			stuck = append(stuck, x.r.String())
@@ -1808,15 +2004,25 @@ func ExecGate(c CaseGate) *vkit.Result {
 			return res
 		}
 	}
+	for _, x := range after {
+		if p := x.op.Panic(); p != nil {
+			return res.Failf("harness-panic", "%s panicked: %v", x.op.Name, p)
+		}
+		if !j.one(x.r) {
+			return res
+		}
+	}
 	e.mu.Lock()
 	hit := e.faultsHit
 	e.noFaults = true
 	e.seq = true
+	e.yields = 0
 	e.mu.Unlock()
 	j.m.voidAfterEach = false
 	for key := range h.keys {
 		r := h.newRec(100000+key, -1, Op{K: opGet, Key: key})
 		r.sweep = true
+		r.afterStop = stopped
 		if !h.doSeq(r, sched) {
 			return lostReply(res, r)
 		}
@@ -2100,7 +2306,7 @@ func ExecConc(c CaseConc) *vkit.Result {
 var PartSeq = &vkit.Part[Case]{
 	Property: Property, Name: "sequential",
 	Rule:  "rapid: {map | LRU cap 1,2,4,100} x workers {1,2,3,7} x 1-6 keys of 16 Hashed2Int types (pool with MinInt64-, negative-, zero-, equal-hashed keys + random values), each key initially in the store or not; values are plain (count 1) or, in half of the LRU and a quarter of the map configurations, implement cache.Value with a Size() drawn per write from {1,1,1,2,cap-1,cap,cap+1,3*cap}, so that cached entries grow and shrink across the capacity; 1-30 operations of the 7 kinds (DoGet is the coherence probe: it is a generated operation, not run after every step) + one closing DoGet per key; fault plan: 0-8 of 'the n-th invocation of load/add/update/upsert/delete fails without effect, as plain error or as not-found'; in half of the histories each operation's own context may end before the call or inside its 1st/2nd store callback (which still takes effect), and the history then waits for idle workers (vkit.Sched quiescence). Oracle per operation: callbacks follow the documented order (an operation may be abandoned only after its caller's context ended), only inside the operation, never overlapping per key; every existing item handed to update/upsert and every value DoGet serves without load equals the store's current value; result = the operation's own last callback result (or the caller's context error once its context ended); cache knowledge per key (certainly cached by observation / by the write-through policy, maybe, certainly not; no assumption on which keys share a worker; a value bigger than the LRU capacity is certainly not cached after it was set and may have evicted every other key, a set that fits evicts others only if the sizes of everything possibly cached may exceed the capacity): a certainly-uncached key served from cache (incl. after a successful delete) or a certainly-cached key bypassed (incl. DoAdd reaching the store) is a violation. Non-trivial: >= 1 injected failure was hit and >= 1 key was touched by two operations; distinct = distinct case JSON",
-	Quick: 20000, Thorough: 100000,
+	Quick: 20000, Thorough: 80000,
 	Gen: GenSeq, Exec: ExecSeq,
 }
 
